@@ -30,6 +30,8 @@ class base(GenericEquality, restriction.base):
 
     _evaluate_collapsible = False
     _evaluate_wipe_empty = True
+    # may a group left with a single member be replaced by that member?
+    _evaluate_collapse_single = True
 
     @cached_hash
     def __hash__(self):
@@ -190,7 +192,7 @@ class base(GenericEquality, restriction.base):
         if not self._evaluate_wipe_empty or l:
             if force_collapse or (
                 (issubclass(parent_cls, self.__class__) and self._evaluate_collapsible)
-                or len(l) <= 1
+                or len(l) <= (1 if self._evaluate_collapse_single else 0)
             ):
                 parent_seq.extend(l)
             else:
@@ -652,6 +654,8 @@ class AtMostOneOfRestriction(base):
 
     _evaluate_collapsable = True
     _evaluate_wipe_empty = False
+    # "at most one of ( a )" is always satisfied, it is not "a"
+    _evaluate_collapse_single = False
 
     def match(self, vals):
         armed = False
